@@ -7,7 +7,8 @@ LEVEL = ("Structural decision procedure of the three size checks: comparison ope
          "(strict `>` between the measured length and the matching RunParameters limit), flag/constructor pairing, "
          "handle_limit_exceeding's table, dominance of the checks over parsing/context creation, flag copy into the "
          "outcome and non-interference of the soft-limit fields. Together these are the whole mechanism of the "
-         "property; what is decided is the shape of that mechanism, not runtime values.")
+         "property; what is decided is the shape of that mechanism, not runtime values."
+         " Added: the size comparisons are mutually independent; the hard-limit exit returns the untouched previous data.")
 
 CHECKS = [
     # (function, measured value must mention, limit field, error ctor suffix, flag field)
